@@ -162,7 +162,7 @@ func (w *roundWalker) elemOf(v ssa.Value, lp *mpLoop, env *mpEnv) bool {
 	if !ok {
 		return false
 	}
-	return ia.Index == lp.index && strings.Join(w.pv.Origins(ia.X), ",") == strings.Join(w.pv.Origins(lp.src), ",")
+	return w.resolve(ia.Index, env) == lp.index && strings.Join(w.pv.Origins(ia.X), ",") == strings.Join(w.pv.Origins(lp.src), ",")
 }
 
 func (w *roundWalker) isProfElem(v ssa.Value, env *mpEnv) bool {
@@ -226,6 +226,55 @@ func (w *roundWalker) classify(v ssa.Value, env *mpEnv, at *ssa.BasicBlock) (kin
 				return ckFree, "", false
 			}
 		}
+		// comparisons of a remembered index (a variable holding -1 or the index of a loop) with a constant
+		if lo, hi, ok := w.intRange(x.X, env); ok {
+			if lo2, hi2, ok2 := w.intRange(x.Y, env); ok2 {
+				switch x.Op {
+				case token.LSS:
+					if hi < lo2 {
+						return ckConst, "", true
+					}
+					if lo >= hi2 {
+						return ckConst, "", false
+					}
+				case token.GEQ:
+					if lo >= hi2 {
+						return ckConst, "", true
+					}
+					if hi < lo2 {
+						return ckConst, "", false
+					}
+				case token.GTR:
+					if lo > hi2 {
+						return ckConst, "", true
+					}
+					if hi <= lo2 {
+						return ckConst, "", false
+					}
+				case token.LEQ:
+					if hi <= lo2 {
+						return ckConst, "", true
+					}
+					if lo > hi2 {
+						return ckConst, "", false
+					}
+				case token.EQL:
+					if hi < lo2 || lo > hi2 {
+						return ckConst, "", false
+					}
+					if lo == hi && lo2 == hi2 && lo == lo2 {
+						return ckConst, "", true
+					}
+				case token.NEQ:
+					if hi < lo2 || lo > hi2 {
+						return ckConst, "", true
+					}
+					if lo == hi && lo2 == hi2 && lo == lo2 {
+						return ckConst, "", false
+					}
+				}
+			}
+		}
 		if x.Op == token.EQL || x.Op == token.NEQ {
 			// error test
 			if k, ok := x.Y.(*ssa.Const); ok && k.Value == nil && isErrorType(x.X.Type()) {
@@ -286,6 +335,15 @@ func (w *roundWalker) classify(v ssa.Value, env *mpEnv, at *ssa.BasicBlock) (kin
 			return ckAtom, "member:" + name, true
 		}
 	case *ssa.Extract:
+		// a module helper func(a, b) (bool, error) that compares the JSON of its two arguments
+		if call, ok := x.Tuple.(*ssa.Call); ok && x.Index == 0 && len(call.Call.Args) == 2 {
+			if f := call.Call.StaticCallee(); f != nil && w.c.InModule(f) && isJSONEqualHelper(f) {
+				a, b := w.extKind(call.Call.Args[0], env), w.extKind(call.Call.Args[1], env)
+				if a != "" && b != "" && a != b {
+					return ckAtom, sprintf("identical@%d", env.mid), true
+				}
+			}
+		}
 		if lk, ok := x.Tuple.(*ssa.Lookup); ok && x.Index == 1 {
 			if _, isMap := lk.X.Type().Underlying().(*types.Map); isMap && w.curIndexLoop(w.resolve(lk.Index, env)) != nil {
 				name := w.listName(w.root(lk.X, env)) + "@" + sprintf("%d", env.mid)
@@ -1317,4 +1375,62 @@ func rulePlanPaths(c *Ctx, r *Rep) {
 	// the decision is consulted for the entity of this round, on its merged configuration (PROV-PLAN checks the arguments)
 	r.Check(w.region.body[decCall.Block()], "decision-in-round|"+fk, c.Pos(decCall.Pos()), "the decision is made once per round", "ok")
 	r.Infof("PLAN-PATHS: %d paths walked through one round of %s", w.paths, fk)
+}
+
+// intRange: the values an integer expression can take on this path: a constant, or the index of the certificate loop
+// (never negative). Large bound stands for "no upper bound known".
+func (w *roundWalker) intRange(v ssa.Value, env *mpEnv) (lo, hi int64, ok bool) {
+	v = w.resolve(v, env)
+	if k, isK := v.(*ssa.Const); isK && k.Value != nil && k.Value.Kind().String() == "Int" {
+		return k.Int64(), k.Int64(), true
+	}
+	if w.curIndexLoop(v) != nil {
+		return 0, 1 << 40, true
+	}
+	return 0, 0, false
+}
+
+// isJSONEqualHelper: func(a, b) (bool, error) returning bytes.Equal(json.Marshal(a), json.Marshal(b)) with the marshalling
+// errors handed back.
+func isJSONEqualHelper(f *ssa.Function) bool {
+	if len(f.Params) != 2 || f.Signature.Results().Len() != 2 || f.Blocks == nil || !isErrorType(f.Signature.Results().At(1).Type()) {
+		return false
+	}
+	marshalOf := func(v ssa.Value) *ssa.Parameter {
+		ex, ok := v.(*ssa.Extract)
+		if !ok || ex.Index != 0 {
+			return nil
+		}
+		call, ok := ex.Tuple.(*ssa.Call)
+		if !ok || calleeFullName(call) != "encoding/json.Marshal" {
+			return nil
+		}
+		p, _ := unwrapIface(call.Call.Args[0]).(*ssa.Parameter)
+		return p
+	}
+	okEq := false
+	for _, ret := range returnsOf(f) {
+		rr := retResults(ret)
+		if returnsNonNilError(ret) {
+			// an error return: must hand back a marshalling error
+			ex, ok := rr[1].(*ssa.Extract)
+			if !ok {
+				return false
+			}
+			if call, ok := ex.Tuple.(*ssa.Call); !ok || calleeFullName(call) != "encoding/json.Marshal" {
+				return false
+			}
+			continue
+		}
+		call, ok := rr[0].(*ssa.Call)
+		if !ok || calleeFullName(call) != "bytes.Equal" {
+			return false
+		}
+		a, b := marshalOf(call.Call.Args[0]), marshalOf(call.Call.Args[1])
+		if a == nil || b == nil || a == b {
+			return false
+		}
+		okEq = true
+	}
+	return okEq
 }
